@@ -426,20 +426,22 @@ def r17_1(rep):
 
     # -- source 2: inclusion directives -----------------------------------------------------------
     isites = callback_calls(prog, "include_file")
-    rep.need(isites, "a call of ParseCallbacks::include_file")
     dsites = []
     for p, b in prog.bodies.items():
         for c in b.calls(lambda n: (n.get("resolved") or n.get("callee")) in inserters):
             dsites.append((b, c))
-    rep.need(dsites, "a call of BindgenContext::add_dep")
+    rep.need(isites or dsites, "a call of ParseCallbacks::include_file or of BindgenContext::add_dep")
+    if not dsites:
+        rep.bad("include:add_dep", "nothing ever calls `%s`: included files never reach `deps` (the depfile lists the input "
+                "headers only)" % ", ".join(sorted(inserters)), isites[0][0].loc(isites[0][1]))
+    if not isites:
+        rep.bad("include:include_file", "nothing ever calls `ParseCallbacks::include_file`: included files are never announced",
+                dsites[0][0].loc(dsites[0][1]))
     rep.note("include_file_sites", [b.loc(c) for b, c in isites])
     rep.note("add_dep_sites", [b.loc(c) for b, c in dsites])
 
     def src_of(b, arg):
         return peel_value(b, arg)
-
-    def outer_guards(b, node):
-        return b.guards(node)
 
     # pair the sites per function
     fns = sorted({b.path for b, _ in isites} | {b.path for b, _ in dsites})
@@ -545,7 +547,15 @@ def r17_1(rep):
         extra = []
         for g in b.guards(c):
             txt = guard_str(b, g)
-            if g[0] and OPTS + "::depfile" in txt and (g[1] != "cond" or strip(g[2])["k"] == "LetCond"):
+            scrut = None
+            if g[1] == "cond" and strip(g[2])["k"] == "LetCond":
+                scrut, pat = strip(g[2])["init"], strip(g[2])["pat"]
+            elif g[1] == "arm":
+                scrut, pat = g[2][0]["scrut"], g[2][0]["arms"][g[2][1]]["pat"]
+            elif g[1] == "letelse":
+                scrut, pat = g[2].get("init"), g[2]["pat"]
+            if g[0] and scrut is not None and b.canon(scrut).endswith(OPTS + "::depfile") and \
+                    any((v or "").endswith("::Some") for v in pat_variants(pat)):
                 continue
             extra.append(txt)
         rep.check(not extra, "depfile:guard@" + who,
@@ -1008,6 +1018,10 @@ def r17_3(rep):
         kinds = []
         for (how, a), hole in zip(args, holes):
             a0 = strip(a)
+            hops = 0
+            while a0["k"] == "Local" and b.local_init(a0["id"]) is not None and a0["id"] not in b.local_mut and hops < 8:
+                a0 = strip(b.local_init(a0["id"]))
+                hops += 1
             role = None
             if a0["k"] in ("Call", "MCall"):
                 esc = escaper_of(prog, b, a0)
@@ -1108,7 +1122,6 @@ def r17_4(rep):
     `eprintln!` (cargo never sees it); prefix `cargo:rerun-if-changed=` for `read_env_var`
     (cargo watches a *file* called `TARGET`); an `if` that drops some files."""
     prog = rep.prog
-    impls = [i for i in prog.impls if i.get("trait") == CB_TRAIT and "CargoCallbacks" in (i.get("self") or i.get("self_ty") or i.get("for") or "CargoCallbacks")]
     for meth, prefix in sorted(CARGO.items()):
         b = prog.impl_fn(CB_TRAIT, "CargoCallbacks", meth)
         if b is None:
